@@ -233,7 +233,7 @@ def explore_case(res, om, errs, runner, kind, raw, B, mode, payload, fits, case_
     if mk in memo:           # the same bytes under the same expectation were already explored in this shard
         res['counters']['deduplicated_cases'] += 1
         return memo[mk]
-    ex = EnvExplorer(merge=True, horizon=horizon)
+    ex = EnvExplorer(merge=True, horizon=horizon, max_execs=1500)
     verdicts = memo[mk] = set()
     for choices, obs in ex.explore(lambda e: runner(om, errs, e, raw, B, short)):
         res['execs'] += 1
